@@ -7,6 +7,7 @@ import IsoDT.Model.Calendar
 import IsoDT.Model.TimePoint
 import IsoDT.Model.Duration
 import IsoDT.Model.LocalTZ
+import IsoDT.Model.Recurrence
 
 open IsoDT IsoDT.Model
 open IsoDT.Spec (Date TZ TP)
@@ -193,6 +194,97 @@ def durOp (op : String) (m : Mode) (rest : List String) : String :=
 def durOps : List String := ["dmk", "dadd", "dsub", "dmul", "dfdiv", "dabs", "dtodays", "dtoweeks", "ddas",
   "dsecs", "dbool", "deq", "dhasheq", "dcmp"]
 
+/-- Parse `<reps|_> <S tp | _> <D dur | _> <E tp | _>` and build the recurrence. -/
+def parseRecArgs (toks : List String) :
+    Option ((Option Int × Option TP × Option Dur × Option TP) × List String) :=
+  match toks with
+  | repsTok :: rest =>
+    let reps? : Option (Option Int) := if repsTok == "_" then some none else repsTok.toInt?.map some
+    match reps? with
+    | none => none
+    | some reps =>
+      let st : Option (Option TP × List String) := match rest with
+        | "_" :: r => some (none, r)
+        | "S" :: r => (parseTP r).map fun x => (some x.1, x.2)
+        | _ => none
+      match st with
+      | none => none
+      | some (start, rest) =>
+        let du : Option (Option Dur × List String) := match rest with
+          | "_" :: r => some (none, r)
+          | "D" :: r => (parseDur r).map fun x => (some x.1, x.2)
+          | _ => none
+        match du with
+        | none => none
+        | some (dur, rest) =>
+          let en : Option (Option TP × List String) := match rest with
+            | "_" :: r => some (none, r)
+            | "E" :: r => (parseTP r).map fun x => (some x.1, x.2)
+            | _ => none
+          match en with
+          | none => none
+          | some (end_, rest) => some ((reps, start, dur, end_), rest)
+  | [] => none
+
+def showOptTP : Option TP → String
+  | some p => showTP p
+  | none => "_"
+
+def showRec (r : Rec) : String :=
+  let reps := match r.reps with | some n => toString n | none => "_"
+  let dur := match r.dur with | some d => showDur d | none => "_"
+  s!"{reps} ; {showOptTP r.start} ; {dur} ; {showOptTP r.end_} ; {r.fmt}"
+
+def showTPs (l : List TP) : String := " | ".intercalate (l.map showTP)
+
+def recOp (op : String) (m : Mode) (rest : List String) : String :=
+  -- ops with a leading count argument
+  let (k, rest) : Nat × List String :=
+    if ["riter", "rvalid", "rfirst", "ritem"].contains op then
+      match rest with
+      | kt :: r => (kt.toNat?.getD 0, r)
+      | [] => (0, [])
+    else (0, rest)
+  match parseRecArgs rest with
+  | none => "bad-op"
+  | some ((reps, start, dur, end_), rest) =>
+    match mkRec m reps start dur end_ with
+    | none => "err"
+    | some r =>
+      match op with
+      | "rmk" => showRec r
+      | "riter" => showTPs (iter m r k)
+      | "ritem" => match getItem m r k with
+        | some p => showTP p
+        | none => "IndexError"
+      | "rvalid" => match parseTP rest with
+        | some (p, _) => b01 (getIsValid m r p k)
+        | none => "bad-op"
+      | "rnext" => match parseTP rest with
+        | some (p, _) => showOptTP (getNext m r p)
+        | none => "bad-op"
+      | "rprev" => match parseTP rest with
+        | some (p, _) => showOptTP (getPrev m r p)
+        | none => "bad-op"
+      | "rfirst" => match parseTP rest with
+        | some (p, _) => showOptTP (getFirstAfter m r p k)
+        | none => "bad-op"
+      | "rshift" => match parseDur rest with
+        | some (d, _) => match r.shift m d with
+          | some r' => showRec r'
+          | none => "err"
+        | none => "bad-op"
+      | "req" | "rhasheq" => match parseRecArgs rest with
+        | some ((reps2, start2, dur2, end2), _) =>
+          match mkRec m reps2 start2 dur2 end2 with
+          | some r2 => if op == "req" then b01 (Rec.eq m r r2) else b01 (Rec.hashKey m r == Rec.hashKey m r2)
+          | none => "err"
+        | none => "bad-op"
+      | _ => "bad-op"
+
+def recOps : List String := ["rmk", "riter", "ritem", "rvalid", "rnext", "rprev", "rfirst", "rshift", "req",
+  "rhasheq"]
+
 def tpOps : List String := ["add", "sub", "addmonths", "tick", "tz", "hash", "hasheq", "cmp", "subtp"]
 
 def dispatch (toks : List String) : String :=
@@ -235,6 +327,10 @@ def dispatch (toks : List String) : String :=
     else if durOps.contains op then
       match Mode.ofName? mode with
       | some m => durOp op m rest
+      | none => "bad-op"
+    else if recOps.contains op then
+      match Mode.ofName? mode with
+      | some m => recOp op m rest
       | none => "bad-op"
     else dispatch0 toks
   | _ => dispatch0 toks
